@@ -703,6 +703,9 @@ func modelValue(model, name string) string {
 
 func writeEvidence(prop, tier string, seed int, pc *propCfg, baseline []string, res []oblResult,
 	bySolver map[string]*solverStat, violations int, wall float64, g *genOutput) {
+	if os.Getenv("GOVC_NO_EVIDENCE") != "" {
+		return // must-fail corpus runs against a scratch copy: not evidence about /repo
+	}
 	discharged := 0
 	var samples []map[string]interface{}
 	var undecided []string
@@ -762,6 +765,16 @@ func writeEvidence(prop, tier string, seed int, pc *propCfg, baseline []string, 
 		"external-frame: dependency functions without a contract modify only memory reachable from their pointer/slice arguments",
 		"termination is not proved",
 		"SMT solvers z3 5.1.0 / cvc5 1.0 / z3 4.8.12 are trusted")
+	var mustFail []string
+	if f := os.Getenv("GOVC_MUSTFAIL_FILE"); f != "" {
+		if data, err := os.ReadFile(f); err == nil {
+			for _, l := range strings.Split(strings.TrimSpace(string(data)), "\n") {
+				if strings.HasPrefix(l, "MUSTFAIL") {
+					mustFail = append(mustFail, l)
+				}
+			}
+		}
+	}
 	assumptions := append([]string{}, pc.Assumed...)
 	ev := map[string]interface{}{
 		"property_id": prop, "tier": tier, "seed": seed, "level": "proof",
@@ -777,6 +790,7 @@ func writeEvidence(prop, tier string, seed int, pc *propCfg, baseline []string, 
 			"bounded_standins":         pc.Bounded,
 			"undecided_not_claimed":    undecided,
 			"generator_errors":         genErrs,
+			"must_fail_corpus":         mustFail,
 		},
 		"assumptions": assumptions,
 		"wall_s":      wall,
